@@ -52,7 +52,7 @@ def evaluate(progs, want_build=True, want_run=True, keep=False, vet=False):
             for u in p.units:
                 ur = UnitResult(p, u)
                 units.append(ur)
-                pkgpath = "%s/%s/%s" % (G.MOD, p.name, u.inj["pkg"])
+                pkgpath = p.path(u.inj["pkg"])
                 st = res.get(pkgpath)
                 ur.pkg_status = st["status"] if st else None
                 if st:
@@ -62,12 +62,12 @@ def evaluate(progs, want_build=True, want_run=True, keep=False, vet=False):
                             ur.wire_errors.append(msg)
                         elif uid is None:
                             info["unattributed"].append(msg)
-            gp = "%s/%s/app/wire_gen.go" % (root, p.name)
+            gp = "%s/%s/%s/wire_gen.go" % (root, p.name, p.pkgmap["app"]["dir"])
             if os.path.exists(gp):
                 gen_paths.append(gp)
         irs = R.irparse(gen_paths)
         for ur in units:
-            gp = "%s/%s/app/wire_gen.go" % (root, ur.prog.name)
+            gp = "%s/%s/%s/wire_gen.go" % (root, ur.prog.name, ur.prog.pkgmap["app"]["dir"])
             if ur.wire_errors:
                 ur.impl = C.norm_err("err " + " ".join(C.classify(ur.ix, m) for m in ur.wire_errors))
             elif ur.pkg_status == "wrote" and gp in irs:
